@@ -45,11 +45,25 @@ def xy_class(cn, x, y, as_key):
     return "valid"
 
 
+_DEC = {}
+
+
+def decompress(cn, x, ybit):
+    """E.decompress_weierstrass with a cache (one modular square root per x; slow on P-224, where p - 1 = 2^96 * odd)"""
+    key = (cn, x)
+    if key not in _DEC:
+        if len(_DEC) > 20000:
+            _DEC.clear()
+        _DEC[key] = (E.decompress_weierstrass(E.CURVES[cn], x, 0), E.decompress_weierstrass(E.CURVES[cn], x, 1)) \
+            if 0 <= x < E.CURVES[cn].p else (None, None)
+    return _DEC[key][ybit] if ybit in (0, 1) else None
+
+
 def comp_class(cn, x, prefix):
     c = E.CURVES[cn]
     if not in_range(c, x):
         return "out-of-range"
-    return "valid" if E.decompress_weierstrass(c, x, prefix & 1) is not None else "no-point"
+    return "valid" if decompress(cn, x, prefix & 1) is not None else "no-point"
 
 
 def edraw_split(cn, raw):
@@ -93,13 +107,22 @@ def mont_class(cn, u, raw=False):
     return "valid" if H.mont_on_curve(cn, ur) else "valid-twist"
 
 
+_SEEDPUB = {}
+
+
 def seed_public(cn, seed):
     """reference public point (x, y) / u for a seed of the right length"""
-    c = E.CURVES[cn]
-    if c.kind == "edwards":
-        return E.ed_decode_point(c, E.ed_public(cn, seed))
-    f = E.x25519_base if cn == "curve25519" else E.x448_base
-    return int.from_bytes(f(seed), "little")
+    key = (cn, bytes(seed))
+    if key not in _SEEDPUB:
+        if len(_SEEDPUB) > 4096:
+            _SEEDPUB.clear()
+        c = E.CURVES[cn]
+        if c.kind == "edwards":
+            _SEEDPUB[key] = E.ed_decode_point(c, E.ed_public(cn, seed))
+        else:
+            f = E.x25519_base if cn == "curve25519" else E.x448_base
+            _SEEDPUB[key] = int.from_bytes(f(seed), "little")
+    return _SEEDPUB[key]
 
 
 def seed_scalar(cn, seed):
@@ -126,7 +149,7 @@ def build(case):
     """-> (callable, description, semantics dict S, group)"""
     from Crypto.PublicKey import ECC
     cn = case["curve"]
-    lib = H.LIBNAME[cn]
+    lib = case.get("alias") or H.LIBNAME[cn]
     c = E.CURVES[cn]
     entry = case["entry"]
     S = {"xy": None, "comp": None, "edraw": None, "u": None, "uraw": False, "d": None, "seed": None, "pub": None}
@@ -243,7 +266,7 @@ def input_class(cn, S, group):
             k = comp_class(cn, pub[1], pub[2])
             if k != "valid":
                 return "public-part-" + k
-            return "valid" if ref_mul(cn, S["d"]) == E.decompress_weierstrass(c, pub[1], pub[2] & 1) else "mismatch"
+            return "valid" if ref_mul(cn, S["d"]) == decompress(cn, pub[1], pub[2] & 1) else "mismatch"
         return "public-part-malformed"
     if S["seed"] is not None:
         if len(S["seed"]) != seed_len(cn):
@@ -361,7 +384,7 @@ def judge(cn, obj, S, group, cls):
                 V.append(("coordinate-out-of-range-accepted", "compressed x = %s is not below p; returned (%s, %s)"
                           % (short(x), short(rx), short(ry))))
             else:
-                P = E.decompress_weierstrass(c, x, pre & 1)
+                P = decompress(cn, x, pre & 1)
                 if P != (rx, ry):
                     V.append(("wrong-point-decoded", "compressed point %02x||%s decodes to %s by SEC 1, returned (%s, %s)"
                               % (pre, short(x), short(P), short(rx), short(ry))))
@@ -427,7 +450,7 @@ else:
 
 
 def _script(case):
-    lib = H.LIBNAME[case["curve"]]
+    lib = case.get("alias") or H.LIBNAME[case["curve"]]
     if case["entry"] == "EccPoint":
         return _SCRIPT % ("ECC.EccPoint(%d, %d, %r)" % (case["x"], case["y"], lib))
     if case["entry"] == "EccXPoint":
@@ -631,6 +654,236 @@ def ec_cases(cn, sub):
                 yield dict(base, entry="construct", seed=s, x=c.Gx, y=c.Gy)
 
 
+# ---------------------------------------------------------------------------
+# thorough tier only: windows, lengths, more private values
+# ---------------------------------------------------------------------------
+WIN = 512           # width of every window of consecutive values
+
+
+def _ranges(*rs):
+    out = {}
+    for r in rs:
+        for v in r:
+            out[v] = 1
+    return list(out)
+
+
+def window_values(cn):
+    """consecutive coordinate values (x of Weierstrass curves, encoded y of Edwards curves, u of Montgomery curves):
+    WIN values from 0, WIN values from the base point's coordinate, the 2*WIN values around p (both sides), and for
+    the Montgomery curves the values around 2^255 (bit masked by RFC 7748) and around the byte width"""
+    c = E.CURVES[cn]
+    p, W = c.p, WIN
+    if c.kind == "weierstrass":
+        return _ranges(range(0, W), range(c.Gx, c.Gx + W), range(p - W, p + W))
+    if c.kind == "edwards":
+        ybits = 255 if cn == "ed25519" else 448
+        return _ranges(range(0, W), range(c.Gy, c.Gy + W), range(p - W, min(p + W, 1 << ybits)))
+    top = 1 << (8 * c.size_bytes)
+    if cn == "curve25519":
+        return _ranges(range(0, W), range(p - W, p + W), range(1 << 255, (1 << 255) + W), range(top - W, top + 2))
+    return _ranges(range(0, W), range(p - W, p + W), range(top - W, top + 2))
+
+
+def one_bit_multiples(cn):
+    """{2^k: 2^k * G} for every 2^k below the order, by repeated doubling in the reference"""
+    c = E.CURVES[cn]
+    Q, k = c.G, 0
+    while (1 << k) < c.order:
+        _MUL.setdefault((cn, 1 << k), Q)
+        Q = E.add(c, Q, Q)
+        k += 1
+    return [1 << i for i in range(k)]
+
+
+def extra_scalars(cn):
+    nn = E.CURVES[cn].order
+    return uniq(list(range(3, 17)) + list(range(nn - 17, nn - 1)) + [(nn - 1) // 2, (nn + 1) // 2])
+
+
+def ec_cases_deep(cn, sub, part=0, nparts=1):
+    """the outermost loop of every sub-grid is sliced [part::nparts]"""
+    c = E.CURVES[cn]
+    n = c.size_bytes
+    p = c.p
+    base = {"part": "ec", "curve": cn}
+    ssh = ("openssh",) if cn in H.OPENSSH else ()
+    if sub == "window" and c.kind == "weierstrass":
+        for x in window_values(cn)[part::nparts]:
+            for pre in (2, 3):
+                pt = H.sec1_comp(cn, x, pre)
+                for fmt in ("sec1", "spki") + ssh:
+                    yield dict(base, entry="import", fmt=fmt, point=pt)
+            P = decompress(cn, x % p, 0)
+            y = P[1] if P is not None else 1
+            for yy in uniq([y, p - y, y + 1]):
+                yield dict(base, entry="EccPoint", x=x, y=yy)
+                yield dict(base, entry="construct", x=x, y=yy)
+                yield dict(base, entry="import", fmt="sec1", point=H.sec1_raw(cn, x, yy))
+    elif sub == "window" and c.kind == "edwards":
+        for y in window_values(cn)[part::nparts]:
+            for sign in (0, 1):
+                raw = H.ed_raw(cn, y, sign)
+                for fmt in ("raw", "spki") + (("openssh",) if cn == "ed25519" else ()):
+                    yield dict(base, entry="import", fmt=fmt, point=raw)
+            x = E._ed_recover_x(p, c.a, c.d, y % p, 0)
+            if x is None:
+                x = 1
+            for xx in uniq([x, (p - x) % p, x + 1]):
+                yield dict(base, entry="EccPoint", x=xx, y=y)
+                yield dict(base, entry="construct", x=xx, y=y)
+    elif sub == "window":
+        s0 = seeds_for(cn)[0][2]
+        for u in window_values(cn)[part::nparts]:
+            yield dict(base, entry="EccXPoint", x=u)
+            yield dict(base, entry="construct", x=u)
+            yield dict(base, entry="construct", seed=s0, x=u)
+            if H.fits(u, n):
+                raw = u.to_bytes(n, "little")
+                yield dict(base, entry="import", fmt="raw", point=raw)
+                yield dict(base, entry="import", fmt="spki", point=raw)
+    elif sub == "lengths" and c.kind == "weierstrass":
+        G = H.sec1_raw(cn, c.Gx, c.Gy)
+        seen = set()
+        for L in range(0, 2 * len(G) + 2):
+            for first in (4, 2, 3):
+                pt = (bytes([first]) + G[1:] * 3)[:L]
+                if pt in seen:
+                    continue
+                seen.add(pt)
+                for fmt in ("sec1", "spki") + ssh:
+                    if fmt == "sec1" and not pt:
+                        continue
+                    yield dict(base, entry="import", fmt=fmt, point=pt)
+        for L in range(0, 2 * n + 3):
+            for db in uniq([bytes(max(L - 1, 0)) + b"\x01"[:L], b"\x01"[:L] + bytes(max(L - 1, 0)), b"\xff" * L]):
+                for fmt in ("rfc5915", "pkcs8"):
+                    yield dict(base, entry="import", fmt=fmt, dbytes=db, pub=None)
+                    yield dict(base, entry="import", fmt=fmt, dbytes=db, pub=G)
+    elif sub == "lengths":
+        sl = seed_len(cn)
+        # eddsa.import_private_key / import_public_key take no curve: 32 octets mean Ed25519 and 57 octets Ed448, so the
+        # length of the OTHER Edwards curve is a well-formed key of that curve and not a wrong length of this one
+        other = {"ed25519": 57, "ed448": 32}.get(cn)
+        for L in range(0, 2 * sl + 3):
+            for s in uniq([bytes(L), b"\xff" * L, bytes(i & 255 for i in range(L))]):
+                yield dict(base, entry="construct", seed=s)
+                yield dict(base, entry="import", fmt="pkcs8-seed", seed=s)
+                if L != other:
+                    yield dict(base, entry="import", fmt="raw-seed", seed=s)
+        if c.kind == "edwards":
+            g = H.ed_raw(cn, c.Gy, c.Gx & 1)
+            fmts = ("raw", "spki") + (("openssh",) if cn == "ed25519" else ())
+        else:
+            g = c.Gu.to_bytes(n, "little")
+            fmts = ("raw", "spki")
+        for L in range(0, 2 * len(g) + 3):
+            for raw in uniq([(g * 3)[:L], bytes(L)[:-1] + b"\x02"[:L]]):
+                for fmt in fmts:
+                    if fmt == "raw" and L == other:
+                        continue
+                    yield dict(base, entry="import", fmt=fmt, point=raw)
+    elif sub == "priv2" and c.kind == "weierstrass":
+        nn = c.order
+        for d in extra_scalars(cn)[part::nparts]:
+            Q = ref_mul(cn, d)
+            alts = [Q, E.neg(c, Q), ref_mul(cn, d + 1 if d + 1 < nn else 3), (0, 0), (Q[0] + p, Q[1]), (Q[0], Q[1] + p),
+                    (Q[0], (Q[1] + 1) % p)]
+            yield dict(base, entry="construct", d=d)
+            for (x, y) in alts:
+                yield dict(base, entry="construct", d=d, x=x, y=y)
+            db = d.to_bytes(n, "big")
+            pubs = [None, H.sec1_raw(cn, *Q), H.sec1_raw(cn, *E.neg(c, Q)), H.sec1_raw(cn, 0, 0),
+                    H.sec1_raw(cn, Q[0], (Q[1] + 1) % p), H.sec1_comp(cn, Q[0], 2 + (Q[1] & 1)),
+                    H.sec1_comp(cn, Q[0], 3 - (Q[1] & 1))]
+            if H.fits(Q[0] + p, n):
+                pubs.append(H.sec1_raw(cn, Q[0] + p, Q[1]))
+            for fmt in ("rfc5915", "pkcs8"):
+                for pub in pubs:
+                    yield dict(base, entry="import", fmt=fmt, dbytes=db, pub=pub)
+        for d in one_bit_multiples(cn)[part::nparts]:
+            if d <= 2:
+                continue
+            Q = ref_mul(cn, d)
+            Qn = E.neg(c, Q)
+            yield dict(base, entry="construct", d=d)
+            yield dict(base, entry="construct", d=d, x=Q[0], y=Q[1])
+            yield dict(base, entry="construct", d=d, x=Qn[0], y=Qn[1])
+            db = d.to_bytes(n, "big")
+            for fmt in ("rfc5915", "pkcs8"):
+                for pub in (None, H.sec1_raw(cn, *Q), H.sec1_raw(cn, *Qn)):
+                    yield dict(base, entry="import", fmt=fmt, dbytes=db, pub=pub)
+        # scalars at and beyond the order, every distance 0..16, and the multiples of the order that fit the field
+        for d in uniq(list(range(nn, nn + 17)) + [k * nn for k in (2, 3)] + [k * nn + 1 for k in (1, 2)])[part::nparts]:
+            yield dict(base, entry="construct", d=d)
+            yield dict(base, entry="construct", d=d, x=c.Gx, y=c.Gy)
+            if H.fits(d, n):
+                for fmt in ("rfc5915", "pkcs8"):
+                    yield dict(base, entry="import", fmt=fmt, dbytes=d.to_bytes(n, "big"), pub=None)
+                    yield dict(base, entry="import", fmt=fmt, dbytes=d.to_bytes(n, "big"), pub=H.sec1_raw(cn, c.Gx, c.Gy))
+    elif sub == "priv2":
+        sl = seed_len(cn)
+        for bit in range(part, 8 * sl, nparts):
+            s = (1 << bit).to_bytes(sl, "little")
+            exp = seed_public(cn, s)
+            yield dict(base, entry="construct", seed=s)
+            yield dict(base, entry="import", fmt="pkcs8-seed", seed=s)
+            yield dict(base, entry="import", fmt="raw-seed", seed=s)
+            if c.kind == "montgomery":
+                yield dict(base, entry="construct", seed=s, x=exp)
+                yield dict(base, entry="construct", seed=s, x=exp ^ 1)
+                yield dict(base, entry="construct", seed=s, x=exp + p)
+            else:
+                yield dict(base, entry="construct", seed=s, x=exp[0], y=exp[1])
+                yield dict(base, entry="construct", seed=s, x=(p - exp[0]) % p, y=exp[1])
+                yield dict(base, entry="construct", seed=s, x=exp[0], y=exp[1] + p)
+
+
+    elif sub == "aliases":
+        for nm in curve_aliases(cn):
+            b = dict(base, alias=nm)
+            vals, wrong = (None, None) if c.kind == "weierstrass" else seeds_for(cn)
+            if c.kind == "montgomery":
+                for u in (c.Gu, 0, 1, p - 1, p, c.Gu + p):
+                    yield dict(b, entry="EccXPoint", x=u)
+                    yield dict(b, entry="construct", x=u)
+                    yield dict(b, entry="construct", seed=vals[0], x=u)
+            else:
+                neutral = (0, 0) if c.kind == "weierstrass" else (0, 1)
+                for (x, y) in ((c.Gx, c.Gy), (c.Gx, (c.Gy + 1) % p), (c.Gx + p, c.Gy), neutral, (c.Gx, p - c.Gy)):
+                    yield dict(b, entry="EccPoint", x=x, y=y)
+                    yield dict(b, entry="construct", x=x, y=y)
+                    if c.kind == "weierstrass" and H.fits(x, n):
+                        yield dict(b, entry="import", fmt="sec1", point=H.sec1_raw(cn, x, y))
+                    if c.kind == "edwards":
+                        yield dict(b, entry="construct", seed=vals[0], x=x, y=y)
+            if c.kind == "weierstrass":
+                for x in (c.Gx, c.Gx + 1, c.Gx + 2):
+                    for pre in (2, 3):
+                        yield dict(b, entry="import", fmt="sec1", point=H.sec1_comp(cn, x, pre))
+                for d in (1, c.order - 1, 0, c.order):
+                    yield dict(b, entry="construct", d=d)
+                    yield dict(b, entry="construct", d=d, x=c.Gx, y=c.Gy)
+            else:
+                for sd in vals[:2] + wrong[:2]:
+                    yield dict(b, entry="construct", seed=sd)
+                yield dict(b, entry="construct", d=1)
+
+
+CANONICAL = {"NIST P-192": "p192", "NIST P-224": "p224", "NIST P-256": "p256", "NIST P-384": "p384", "NIST P-521": "p521",
+             "Ed25519": "ed25519", "Ed448": "ed448", "Curve25519": "curve25519", "Curve448": "curve448"}
+
+
+def curve_aliases(cn):
+    """every name of the library's own curve table that stands for this curve, except the one all other grids use"""
+    from Crypto.PublicKey import ECC
+    return sorted(k for k, v in ECC._curves.items()
+                  if CANONICAL.get(getattr(v, "canonical", None) or getattr(v, "desc", None)) == cn and k != H.LIBNAME[cn])
+
+
+DEEP_SUBS = ("window", "lengths", "priv2", "aliases")
+
+
 def near_miss_points(cn):
     """points that miss the curve equation by a single bit of the machine representation.
 
@@ -697,8 +950,9 @@ def ec_worker(shards):
     acc = Acc()
     last = None
     for (cn, sub, part, nparts) in shards:
-        for i, case in enumerate(ec_cases(cn, sub)):
-            if i % nparts != part:
+        deep = sub.startswith("deep-")
+        for i, case in enumerate(ec_cases_deep(cn, sub[5:], part, nparts) if deep else ec_cases(cn, sub)):
+            if not deep and i % nparts != part:
                 continue
             cls, res = check_ec(case, acc)
             acc.count("evaluations")
@@ -706,6 +960,11 @@ def ec_worker(shards):
             ent = case["entry"] if case["entry"] != "import" else "import-" + case["fmt"]
             acc.seen("classes", ("ec", cn, ent, cls, res))
             acc.seen("ec_entries", (cn, ent))
+            if deep:
+                acc.count("ec_deep_" + sub[5:])
+                acc.seen("ec_deep_outcomes", (cn, sub[5:], "accept" if res == "accepted" else "refuse" if res == "ValueError" else "other"))
+                if case.get("alias"):
+                    acc.seen("ec_aliases", (cn, case["alias"]))
             if case.get("nearmiss"):
                 acc.count("ec_near_miss_cases")
                 acc.seen("ec_near_miss_bits", (cn, case["nearmiss"][0], case["nearmiss"][1]))
@@ -725,8 +984,16 @@ def ec_worker(shards):
     return acc
 
 
-def ec_shards():
+def ec_shards(quick=True):
     sh = []
+    if not quick:
+        for cn in ("p224",) + tuple(c_ for c_ in H.ALL if c_ != "p224"):
+            heavy = cn in ("p521", "p384", "ed448", "curve448")
+            # P-224: the library's modular square root is the general Tonelli-Shanks (p - 1 = 2^96 * odd), 35 ms per point
+            for sub, parts in (("window", 32 if cn == "p224" else 12 if heavy else 8), ("priv2", 6 if heavy else 3), ("lengths", 1)):
+                for part in range(parts):
+                    sh.append([(cn, "deep-" + sub, part, parts)])
+        sh.append([(cn, "deep-aliases", 0, 1) for cn in H.ALL])
     for cn in H.WEIER + H.EDW:
         for part in range(4):
             sh.append([(cn, "pairs", part, 4)])
